@@ -41,6 +41,43 @@ def fill_cycle_session(rng, conf, cycles):
     lines += ["drop_all", "unmount", "mount 1 0 lossy", "stats", "unmount"]
     return head + lines
 
+_geom_cache = {}
+def geom_of(conf):
+    """geometry of a freshly formatted volume of this configuration (from its boot sector)"""
+    import fatimg
+    if conf[0] not in _geom_cache:
+        r = vlib.run_scripts([["dev %d 0" % conf[1], "wlog 0", conf[2], "dump 0 512"]])[0]
+        _geom_cache[conf[0]] = fatimg.Geom(bytes.fromhex(r[-1].payload))
+    return _geom_cache[conf[0]]
+
+def hint_session(rng, conf, idx=None):
+    """FAT32: the next-free hint of the FS-info sector placed at / around the last cluster before mounting"""
+    g = geom_of(conf)
+    last = g.clusters + 1
+    hints = [last, last - 1, last + 1, last - 2, 2, 0xFFFFFFFF, 3, 0, 1, last + 2]
+    hint = hints[idx % len(hints)] if idx is not None else rng.choice(hints)
+    fsi = g.bps * 1
+    head = ["dev %d 0" % conf[1], "wlog 0", conf[2], "poke %d %s" % (fsi + 492, hint.to_bytes(4, "little").hex()), "pages", "wlog 1",
+            "mount 1 0 lossy", "stats"]
+    lines = []
+    # when the hint is j clusters before the last one, allocate exactly j+1 clusters so that the very last
+    # cluster is the most recent allocation when the volume is unmounted
+    nalloc = (last - hint + 1) if last - 2 <= hint <= last else rng.range(1, 3)
+    for k in range(nalloc):
+        lines += ["create_file 0 %s %d" % (hexs("h%d.bin" % k), k + 1), "write_pat %d %d %d" % (k + 1, rng.range(1, g.cluster_size), k),
+                  "drop_file %d" % (k + 1), "stats"]
+    if not (last - 2 <= hint <= last) and rng.chance(1, 2):
+        lines += ["create_dir 0 %s 0" % hexs("hd"), "stats"]
+    lines += ["drop_all", rng.choice(["unmount", "dropfs"]), "mount 1 0 lossy", "stats", "unmount"]
+    return head + lines
+
+def _unused():
+    lines = []
+    if rng.chance(1, 2):
+        lines += ["create_dir 0 %s 0" % hexs("hd"), "stats"]
+    lines += ["drop_all", rng.choice(["unmount", "dropfs"]), "mount 1 0 lossy", "stats", "unmount"]
+    return head + lines
+
 def run(rep, tier, seed):
     rng = vlib.Rng(seed)
     confs = sessions.configs(tier)
@@ -61,7 +98,9 @@ def run(rep, tier, seed):
                 out.append(l)
                 if rng.chance(1, 4): out.append("stats")
             scripts.append(out + ["stats", "drop_all", "unmount"])
-    judged = sessions.run_judged(scripts, flags=("info",), shards=16)
+    for i in range(12 if tier == "quick" else 120):
+        scripts.append(hint_session(rng, [c for c in confs if c[0].startswith("fat32")][i % 2], i // 2))
+    judged = sessions.run_judged(scripts, flags=("infos",), shards=16)
     nstats = 0; nnospace = 0; nunmount32 = 0
     for jd in judged:
         rep.count()
